@@ -73,7 +73,8 @@ Inductive cop :=
 | CPair (r r2 : nat)
 | CUnpair (r : nat)
 | CRecycle (r : nat)
-| CChurn (k : nat) (junk : list N).                           (* scribble over the k-th pooled buffer *)
+| CChurn (k : nat) (junk : list N)                            (* scribble over the k-th pooled buffer *)
+| CEdit (r : nat) (e : edit).                                 (* Clear / ClearQualities / WriteQualities / Grow: through the object's own buffers *)
 
 Definition abs_op (c : cop) : op :=
   match c with
@@ -84,6 +85,7 @@ Definition abs_op (c : cop) : op :=
   | CRecycle r => ORecycle r | CChurn _ _ => ONop
   | CPokeMm r k p => OPokeMm r k p | CJoin r r2 i _ _ _ => OJoin r r2 i
   | CWrite r s => OWrite r s | CPair r r2 => OPair r r2 | CUnpair r => OUnpair r
+  | CEdit r e => OEdit r e
   end.
 
 Definition con (cs : cstate) (r : nat) (f : nat -> cobj -> (status * Z * Z) * cstate) : (status * Z * Z) * cstate :=
@@ -148,6 +150,7 @@ Definition cstep (cs : cstate) (o : cop) : (status * Z * Z) * cstate :=
   | CChurn k junk => match nth_error (pool cs) k with
                      | Some b => cquiet (mkcs (cregs cs) (cobjs cs) (upd b junk (heap cs)) (pool cs))
                      | None => cquiet cs end
+  | CEdit r e => con cs r (fun ob co => cquiet (c_overwrite cs ob co (apply_edit e (cread cs co))))
   end.
 
 Fixpoint crun (cs : cstate) (ops : list cop) : list (status * Z * Z) * cstate :=
